@@ -122,26 +122,30 @@ class Cert:
             if oid == bytes([0x55, 0x1d, 0x0e]): return kids(val)[0][1]
         return None
 
-    def reissue(self, key, serial=None, issuer=None, subject=None, alg=SHA256_RSA, aki=None, ext=None):
+    def reissue(self, key, serial=None, issuer=None, subject=None, alg=SHA256_RSA, aki=None, ext=None, crit=None, add_ext=None):
         """same certificate with another serial / names / authorityKeyIdentifier / extension values
         (ext: {oid octets: new extnValue content, or None to drop the extension}), signed afresh by `key`
-        (sha256WithRSAEncryption)"""
+        (sha256WithRSAEncryption).  crit: {oid octets: BOOLEAN content octet of `critical`, None = field absent};
+        add_ext: [(oid octets, critical octet or None, extnValue content)] appended."""
         k = list(self.k); o = self.o
         algid = enc(6, alg) + b"\x05\x00"
         if serial is not None: k[o] = (2, serial)
         k[o + 1] = (0x30, algid)
         if issuer is not None: k[o + 2] = (0x30, issuer)
         if subject is not None: k[o + 4] = (0x30, subject)
-        if aki is not None or ext:
-            ext = dict(ext or {})
+        if aki is not None or ext or crit or add_ext:
+            ext = dict(ext or {}); crit = dict(crit or {})
             if aki is not None: ext[OID_AKI] = enc(0x30, enc(0x80, aki))
             k = [x for x in k if x[0] != 0xa3]
             seq = b""
-            for oid, crit, val in self.exts:
+            for oid, crit_, val in self.exts:
                 if oid in ext:
                     if ext[oid] is None: continue
                     val = ext[oid]
-                seq += enc(0x30, enc(6, oid) + (enc(1, b"\xff") if crit else b"") + enc(4, val))
+                cb = crit[oid] if oid in crit else (0xff if crit_ else None)
+                seq += enc(0x30, enc(6, oid) + (enc(1, bytes([cb])) if cb is not None else b"") + enc(4, val))
+            for oid, cb, val in (add_ext or []):
+                seq += enc(0x30, enc(6, oid) + (enc(1, bytes([cb])) if cb is not None else b"") + enc(4, val))
             k.append((0xa3, enc(0x30, seq)))
         tbs = enc(0x30, b"".join(enc(t, c) for t, c in k))
         return enc(0x30, tbs + enc(0x30, algid) + enc(3, b"\x00" + key.sign(tbs)))
